@@ -12,6 +12,7 @@
 import PyIkev2.Proofs.Machine
 import PyIkev2.Proofs.HandlersKernel
 import PyIkev2.Proofs.WholeSad
+import PyIkev2.Proofs.HandlersRekey
 
 namespace PyIkev2.Props.C10
 open PyIkev2 PyIkev2.Impl
@@ -200,6 +201,48 @@ example : SadI [([9], 50, [0xe])] [10] [11]
   refine ⟨rfl, rfl, ?_, by decide, by decide⟩
   intro e
   simp [keysX, kidKeys, outKey, inKey, demo, ipsecProto]
+
+/-! ### every delegated call, THROUGH IKE_SA rekeys (no hypothesis on the message, the state or the oracles)
+
+  `FullI base a p s` (Proofs/HandlersRekey.lean): the SAD is `base` (what belongs to other objects) plus the keys of the CHILD_SAs of
+  the successor object (`new_ike_sa`) plus the keys of this IKE_SA's CHILD_SAs, all different; a successor has this IKE_SA's
+  addresses; and a successor holds CHILD_SAs only in the states after the hand-over (REKEYED, DEL_AFTER_REKEY_IKE_SA_REQ_SENT,
+  DELETED).  `CallOk`: a call that returns keeps it; a call that raises keeps it and has either not touched the successor or leaves
+  an empty one — so no exception follows a hand-over, and the IKE_SA the shell then deletes never owns SAs through a successor the
+  table does not know.  Proved with a small pre/post-condition logic (`Hoare`) for the four functions in which the invariant changes
+  in the middle (the two IKE_SA rekey branches and their callers), two state-independent families for the time before the hand-over
+  (`SadI`, `SO`) and one for the time after it (`P2`: the state stays in the three states, the successor is not touched), each
+  handler guarded by its own state check. -/
+
+theorem c10_concrete_every_request_through_rekeys (base : List Key) (a p : Bytes) (now : Nat) (m : Msg) (h : HM HRes)
+    (hh : requestHandler now m = some h) : CallOk base a p h := request_callOk base a p now m h hh
+
+theorem c10_concrete_every_response_through_rekeys (base : List Key) (a p : Bytes) (now : Nat) (m : Msg) (h : HM HRes)
+    (hh : responseHandler now m = some h) : CallOk base a p h := response_callOk base a p now m h hh
+
+theorem c10_concrete_every_generator_through_rekeys (base : List Key) (a p : Bytes) (x y : TS) (i now : Nat) (c : ChildRef) (hard : Bool) :
+    CallOk base a p (asRequest (genAcquireH x y i)) ∧ CallOk base a p (asRequest (genExpireH c hard)) ∧
+    CallOk base a p (asRequest generateDpdRequest) ∧ CallOk base a p (asRequest generateDeleteIkeSaRequest) ∧
+    CallOk base a p (asRequest (generateRekeyIkeSaRequest now)) := generators_callOk base a p x y i now c hard
+
+/-- the hand-over itself, from the state the rekey branches reach it in -/
+theorem c10_concrete_handover_keeps_everything (base : List Key) (a p : Bytes) (fromTmp : Bool) (s : HSt) (h : G base a p s)
+    (hslot : (if fromTmp then s.tmp else s.succ).isSome = true) :
+    FullI base a p (handOver fromTmp s).2 ∧ (handOver fromTmp s).2.me.core.st = stREKEYED := handOver_full base a p fromTmp s h hslot
+
+/-! non-vacuity: the demo object with its CHILD_SA and an empty successor satisfies the invariant -/
+example : FullI [([9], 50, [0xe])] [10] [11]
+    { me := { core := { demo with children := [{ inSpi := [0xa], outSpi := [0xb], proto := 3 }] },
+              ext := { conf := emptyConf,
+                       kids := [{ inSpi := [0xa], outSpi := [0xb], orig := emptyConf.proposal, proposal := { emptyConf.proposal with proto := 3 },
+                                  tsi := [], tsr := [], mode := 0, lifetime := 0 }] } },
+      succ := some { core := { demo with children := [], mySpi := [7], st := stINITIAL }, ext := { conf := emptyConf } },
+      tape := { vals := [] }, sad := [([9], 50, [0xe]), ([11], 50, [0xb]), ([10], 50, [0xa])] } := by
+  refine ⟨⟨rfl, rfl, ?_, by decide, by decide⟩, ?_, ?_⟩
+  · intro e
+    simp [keysX, kidKeys, outKey, inKey, demo, ipsecProto, keysXo]
+  · intro n hn; cases hn; exact ⟨rfl, rfl, rfl⟩
+  · intro hne; exact absurd (by decide) hne
 
 /-! ### the whole model, whole histories
 
